@@ -148,7 +148,7 @@ def main() -> int:
     # thorough: N worker subprocesses (never multiprocessing.Pool)
     mod = importlib.import_module(f"rv.props.{prop.lower()}")
     n = args.shards or getattr(mod, "THOROUGH_SHARDS", 12)
-    budget = getattr(mod, "SHARD_TIMEOUT_S", 1500)
+    budget = getattr(mod, "SHARD_TIMEOUT_S", 3600)
     work = os.path.join(ROOT, ".work", prop)
     os.makedirs(work, exist_ok=True)
     procs = []
